@@ -404,7 +404,7 @@ Proof.
   - apply mbind_inv in H. destruct H as (h1 & a & Ha & H).
     apply mbind_inv in H. destruct H as (h2 & b & Hb & H). apply ret_inv in H. destruct H as [-> ->].
     assert (Ha' : h1 = h /\ forall x, In x a -> focus && (j =? fi) = true /\ OnPath h c x).
-    { destruct (keep c); [eapply IHrn; eassumption|]. apply ret_inv in Ha. destruct Ha as [-> ->]. split; [reflexivity|]. intros x []. }
+    { destruct (keep j); [eapply IHrn; eassumption|]. apply ret_inv in Ha. destruct Ha as [-> ->]. split; [reflexivity|]. intros x []. }
     destruct Ha' as [-> Ha'].
     destruct (IH (j + 1) fi focus h h2 b HN ltac:(lia) Hb) as [-> Hb']. split; [reflexivity|].
     intros x Hx. apply in_app_or in Hx. destruct Hx as [Hx|Hx].
